@@ -31,14 +31,22 @@ def run_cases(engine, cases, chunk=150):
         k = 0
         for c, a, r in zip(part, anns, ress):
             m = mres[k:k + len(a)]; k += len(a)
-            out.append({"raw": c, "ann": a, "impl": r, "model": m})
+            out.append({"raw": c, "ann": a, "impl": r, "model": m, "engine": engine})
     return out
+
+
+COMPARERS = {}     # engine -> f(impl_line, model_line) -> bool (equal)
 
 
 def first_mismatch(case):
     """index of the first op whose canonical result differs (ambiguous float boundaries end the
     comparison of that case), or None"""
+    cmp = COMPARERS.get(case.get("engine"))
     for i, (a, b) in enumerate(zip(case["impl"], case["model"])):
+        if cmp is not None:
+            if not cmp(a, b):
+                return i
+            continue
         if "amb=1" in a or "amb=1" in b:
             return None
         if strip_amb(a) != strip_amb(b):
@@ -66,7 +74,9 @@ def case_text(engine, case, note=""):
     for i, a in enumerate(case["ann"]):
         im = case["impl"][i] if i < len(case["impl"]) else "<missing>"
         mo = case["model"][i] if i < len(case["model"]) else "<missing>"
-        lines.append("#   %s | %s | %s%s" % (a, im, mo, "" if strip_amb(im) == strip_amb(mo) else "   <== differs"))
+        cmp = COMPARERS.get(engine)
+        same = cmp(im, mo) if cmp else strip_amb(im) == strip_amb(mo)
+        lines.append("#   %s | %s | %s%s" % (a, im, mo, "" if same else "   <== differs"))
     return "\n".join(lines) + "\n"
 
 
